@@ -126,6 +126,8 @@ def step (st : State) (w : List String) : State × String :=
     let r2 := r.1.join 0
     let w' := r2.1.timeout r.2.1
     (st, s!"follower={roleStr r2.2.2} closed={boolStr (genClosed w' r.2.1)} {genStr w' r.2.1}")
+  | ["eff", "new"] => (st, "ok")
+  | ["proc", "new"] => (st, "ok")
   | ["eff", e, hd, past] =>
     match (if e == "none" then some CtxErr.none else if e == "deadline" then some CtxErr.deadline
            else if e == "canceled" then some CtxErr.canceled else none), parseBool hd, parseBool past with
